@@ -13,7 +13,7 @@ import os
 from sim import core, canon, ops, simio
 from checks.common import PoolCheck, delivery_facts, merge, short, jcopy, shrink_plan
 
-ENTRY_POINTS = ('is_valid', 'iter_errors', 'validate', 'decode', 'decode_lax', 'decode_skip', 'pkg_to_dict_skip',
+ENTRY_POINTS = ('is_valid', 'iter_errors', 'validate', 'decode', 'decode_lax', 'decode_skip', 'pkg_to_dict_skip', 'cli',
                 'pkg_is_valid', 'pkg_iter_errors', 'pkg_validate', 'pkg_to_dict')
 CHANNELS = ('bytes', 'text', 'bytesio', 'stringio', 'raw', 'raw', 'buffered', 'textio', 'duck',
             'path', 'pathobj', 'fileurl', 'http', 'etree', 'element', 'resource', 'resource_stream')
@@ -66,6 +66,33 @@ class C04(PoolCheck):
         return {'entry': key, 'doc': di, 'src': src, 'eps': eps, 'reuse': reuse}
 
     # ------------------------------------------------------------------
+    def call_cli(self, entry, data, env):
+        """The validate command, in process: exit status as the OS reports it (low 8 bits)."""
+        import io
+        import sys
+        import contextlib
+        from xmlschema import cli
+        path = env.path_for(data)
+        schema_path = entry.main_path if not str(entry.main_path).startswith('file://') else entry.main_path[7:]
+        argv = ['xmlschema-validate', '--schema', schema_path]
+        if entry.version == '1.1':
+            argv.append('--version=1.1')
+        argv.append(path)
+        saved = sys.argv
+        sys.argv = argv
+        try:
+            with contextlib.redirect_stdout(io.StringIO()), contextlib.redirect_stderr(io.StringIO()):
+                try:
+                    cli.validate()
+                    code = 0
+                except SystemExit as exc:
+                    code = exc.code if isinstance(exc.code, int) else (0 if exc.code is None else 1)
+        except Exception as exc:
+            return canon.canon_exc(exc)
+        finally:
+            sys.argv = saved
+        return {'k': 'ok', 'v': ['exit', code & 0xFF]}
+
     def call(self, schema, source, ep):
         import xmlschema
         try:
@@ -127,6 +154,9 @@ class C04(PoolCheck):
                         continue
                     if core_ is not None:
                         cores.append(core_)
+                if ep == 'cli':
+                    got.append(jcopy(self.call_cli(e, data, env)))
+                    continue
                 got.append(jcopy(self.call(e.schema, source, ep)))
         finally:
             env.cleanup()
@@ -223,6 +253,17 @@ class C04(PoolCheck):
         if ref_dec['k'] != 'ok':
             return None
         D, DE = ref_dec['v']
+        if name == 'cli':
+            # the validate command exits with status 0 exactly when the document is valid
+            if E is None or getattr(self, '_multi_source', False):
+                return None
+            if g['k'] != 'ok':
+                base.update(clause='raise', cls=g['cls'])
+                return base
+            if (g['v'][1] == 0) != (not E):
+                base.update(clause='cli-exit-status', status=g['v'][1], errors=min(len(E), 300))
+                return base
+            return None
         if name in ('decode_skip', 'to_dict_skip'):
             # the decoded data of a VALID document does not depend on the validation mode
             if g['k'] != 'ok':
@@ -307,6 +348,8 @@ def tree_view(res, keep_data=False):
             res['verr'] = _tv_err(res['verr'])
         return res
     v = res['v']
+    if isinstance(v, list) and len(v) == 2 and v[0] == 'exit':
+        return res       # the command's exit status
     if isinstance(v, list) and len(v) == 2 and isinstance(v[1], list) and \
             (not v[1] or (isinstance(v[1][0], list) and v[1][0] and str(v[1][0][0]).startswith('XMLSchema'))) \
             and not (v and isinstance(v[0], list) and v[0] and str(v[0][0]).startswith('XMLSchema')):
